@@ -8,6 +8,8 @@ Print Assumptions CodecEquiv.tr_WriteInt64_equiv.
 Print Assumptions CodecEquiv.tr_WriteUint32_equiv.
 Print Assumptions CodecEquiv.tr_WriteString_equiv.
 Print Assumptions ParseEquiv.tr_Parse_build_equiv.
+Print Assumptions ParseEquiv.tr_Endpoint2tars_equiv.
+Print Assumptions ParseEquiv.tr_Tars2endpoint_build_equiv.
 Print Assumptions BSWLEquiv.tr_BSWL_range_equiv.
 Print Assumptions BSWLEquiv.tr_BSWL_scale_equiv.
 Print Assumptions CheckActiveEquiv.tr_checkActive_equiv.
